@@ -564,6 +564,7 @@ func c05(env *Env, rep *Report) {
 		}
 		distinct += w.kerberos(viol, rep)
 		distinct += w.otherHost(viol, rep)
+		distinct += w.whileOpen(viol, rep)
 		distinct += w.decoyNames(viol, rep)
 		distinct += w.withSession(viol, rep, ins)
 		// NTLM: after a completed exchange (on a plain GET, which leaves the connection open) a second
@@ -720,6 +721,9 @@ func (w *c05World) basicInterleavings(viol func(kind, detail string), rep *Repor
 		{{userA, passA, userA}, {userB, passB, userB}},
 		{{userA, passA, userA}, {userB, "wrong-password", ""}},
 		{{userA, "wrong-password", ""}, {userB, passB, userB}},
+		// the same account twice at the same time, once with the right and once with a wrong password
+		{{userA, passA, userA}, {userA, "wrong-password", ""}},
+		{{userA, "wrong-password", ""}, {userA, passA, userA}},
 	}
 	orders := [][]string{{"S0", "S1", "R0", "R1"}, {"S0", "S1", "R1", "R0"}, {"S1", "S0", "R0", "R1"}, {"S1", "S0", "R1", "R0"}, {"S0", "R0", "S1", "R1"}, {"S1", "R1", "S0", "R0"}}
 	n := 0
@@ -736,6 +740,7 @@ func (w *c05World) basicInterleavings(viol func(kind, detail string), rep *Repor
 			conns := make([]net.Conn, 2)
 			brs := make([]*bufio.Reader, 2)
 			resp := make([]chan RawResponse, 2)
+			notAsked := make([]bool, 2)
 			infraFail := ""
 			for _, ev := range ord {
 				i := int(ev[1] - '0')
@@ -752,17 +757,38 @@ func (w *c05World) basicInterleavings(viol func(kind, detail string), rep *Repor
 					c.Write([]byte(raw))
 					resp[i] = make(chan RawResponse, 1)
 					go func(i int) { resp[i] <- ReadResponse(brs[i]) }(i)
+					wait := 10 * time.Second
+					if pair[0].user == pair[1].user {
+						wait = 3 * time.Second
+					}
 					select {
 					case u := <-a.Arrived:
 						if u != pair[i].user {
 							infraFail = "backend saw " + u + " for request of " + pair[i].user
 						}
-					case <-time.After(10 * time.Second):
-						infraFail = "request did not reach the authentication backend"
+					case <-time.After(wait):
+						if pair[0].user != pair[1].user {
+							infraFail = "request did not reach the authentication backend"
+						}
+						// same account: the gateway may hold the second request back until the first is answered
+						// (that alone is no violation); the answers decide
+						notAsked[i] = true
 					}
 				case 'R':
 					a.Release[pair[i].user] <- struct{}{}
 					// the answer is on its way: wait for this request's response before the next event
+					if pair[0].user == pair[1].user {
+						// which of the two calls takes the token is the backend's business: wait for either response
+						select {
+						case r := <-resp[0]:
+							resp[0] <- r
+						case r := <-resp[1]:
+							resp[1] <- r
+						case <-time.After(10 * time.Second):
+							infraFail = "no response after the backend answered"
+						}
+						break
+					}
 					select {
 					case r := <-resp[i]:
 						resp[i] <- r
@@ -777,6 +803,12 @@ func (w *c05World) basicInterleavings(viol func(kind, detail string), rep *Repor
 			a.mu.Lock()
 			a.Gate = false
 			a.mu.Unlock()
+			for _, p := range pair {
+				select { // a call that is still held gets its token
+				case a.Release[p.user] <- struct{}{}:
+				default:
+				}
+			}
 			what := fmt.Sprintf("principals (%s,%v) (%s,%v), event order %v", pair[0].user, pair[0].want != "", pair[1].user, pair[1].want != "", ord)
 			if infraFail != "" {
 				for _, c := range conns {
@@ -791,8 +823,18 @@ func (w *c05World) basicInterleavings(viol func(kind, detail string), rep *Repor
 				infra("C05 interleavings: %s (%s)", infraFail, what)
 			}
 			for i := 0; i < 2; i++ {
-				r := <-resp[i]
+				var r RawResponse
+				select {
+				case r = <-resp[i]:
+				case <-time.After(15 * time.Second):
+					viol("request-never-answered/concurrent-basic", fmt.Sprintf("request %d of %s", i, what))
+					conns[i].Close()
+					continue
+				}
 				reached := r.Status == 101
+				if notAsked[i] && reached && pair[i].want == "" {
+					viol("handler-reached-with-credentials-the-backend-never-saw/concurrent-basic", fmt.Sprintf("request %d of %s", i, what))
+				}
 				rep.outcome(fmt.Sprintf("%s interleaving pair=%d order=%v req=%d reached=%v", w.cfg, pi, ord, i, reached))
 				switch {
 				case pair[i].want == "" && reached:
@@ -907,6 +949,50 @@ func (w *c05World) withSession(viol func(kind, detail string), rep *Report, ins 
 						viol("disabled-scheme-reaches-handler/basic/with-openid-session", what)
 					}
 				}
+			}
+		}
+	}
+	return n
+}
+
+// whileOpen: while a tunnel authenticated with one scheme stays open, another client with confirmed credentials
+// (of the same or another scheme) reaches the handler.
+func (w *c05World) whileOpen(viol func(kind, detail string), rep *Report) int {
+	if w.cfg.has("openid") {
+		return 0
+	}
+	n := 0
+	var schemes []string
+	for _, s := range []string{"basic", "ntlm", "kerberos"} {
+		if (s == "basic" && w.cfg.has("local")) || (s != "basic" && w.cfg.has(s)) {
+			schemes = append(schemes, s)
+		}
+	}
+	defer func() { w.only = "" }()
+	for _, first := range schemes {
+		for _, second := range schemes {
+			w.only = first
+			c1, _, _ := w.authedWS()
+			if c1 == nil {
+				viol("cannot-open-authenticated-tunnel", first)
+				continue
+			}
+			n++
+			rep.add("executions", 2)
+			w.only = second
+			c2, br2, _ := w.authedWS()
+			ok := c2 != nil
+			who := ""
+			if ok {
+				who = w.whoIs(c2, br2)
+				c2.Close()
+			}
+			c1.Close()
+			rep.outcome(fmt.Sprintf("%s while-open first=%s second=%s reached=%v", w.cfg, first, second, ok))
+			if !ok {
+				viol("confirmed-credentials-do-not-reach-handler/while-another-tunnel-is-open/"+second, fmt.Sprintf("a tunnel authenticated with %s is open; a second client with right %s credentials does not reach the handler", first, second))
+			} else if who != userA {
+				viol("tunnel-does-not-carry-confirmed-user/while-another-tunnel-is-open/"+second, who)
 			}
 		}
 	}
